@@ -7,6 +7,9 @@ use crate::refs::texcont::{self, Tex};
 use mila::{ctpk, tpl::Tpl, ColorFormat};
 
 fn digest(c: &mut Case, tag: &str, out: &[u8]) {
+    if cfg!(miri) {
+        return; // the Miri lane runs a reduced, differently indexed workload: not comparable by case index
+    }
     let idx = c.idx;
     c.digest(format!("case{}:{}", idx, tag), fnv(out));
 }
